@@ -2,7 +2,11 @@ import TongoProofs.Lemmas.CellHashTree
 import TongoProofs.Lemmas.CellTable
 import TongoProofs.Lemmas.HashMemo
 import TongoProofs.Lemmas.CellNoPanic
+import TongoProofs.Lemmas.CellErr
+import TongoProofs.C07
 import TongoGen.LevelMask
+import TongoGen.CellDesc
+import TongoProofs.Lemmas.GenTiesA
 /-! Property C02 — cell hash, depth and level follow the TON representation-hash definition.
 
 Model: `Tongo.Cell.info` = `newImmutableCell` on a whole tree (`computeInfo`/`levelStep` per cell, line by line),
@@ -237,6 +241,72 @@ theorem hash_structural (H : List UInt8 → List UInt8) (heap1 heap2 : Memo.Heap
   | panic e => rw [e2] at a2; simp only [Memo.Agrees] at a2; rw [s1] at a2; cases a2
 
 
+/-- **The other forms of the hash.** On well-formed trees within the depth limit whose hash has 32 bytes (every
+SHA-256 digest): `Hash256()` is the representation hash of the definition (as a 32-byte array), `HashString()` is its
+lower-case hex, and `Level()` is the bit length of the mask. -/
+theorem forms_eq_spec (H : List UInt8 → List UInt8) (c : Cell) (hwf : Spec.WFExotic c)
+    (hd : Spec.tooDeep c = false) (hlen : (Spec.reprHash H c).length = 32) :
+    Cell.hash256 H c = .ok (Spec.reprHash H c) ∧ Cell.hashString H c = .ok (Hex.encode (Spec.reprHash H c)) ∧
+    Cell.level c = Spec.cellLevel c := by
+  have e := reprHash_eq_spec H c hwf hd
+  have hm : c.mask < 8 := by
+    cases c with
+    | mk ty mask bits refs =>
+      have hwf' : Spec.wfExotic (.mk ty mask bits refs) = true := hwf
+      simp only [Spec.wfExotic, Spec.wfNode, Bool.and_eq_true, decide_eq_true_eq] at hwf'
+      show mask < 8
+      omega
+  refine ⟨?_, ?_, ?_⟩
+  · simp only [Cell.hash256, e, Outcome.bind_ok, pure, hlen, Nat.sub_self, List.replicate_zero, List.append_nil]
+    rw [List.take_of_length_le (by omega)]
+  · simp only [Cell.hashString, e, Outcome.bind_ok, pure]
+  · simp only [Cell.level, Spec.cellLevel, (level_facts c.mask hm).1]
+
+/-- **Hashing the cells of any parsed bag of cells is total and agrees with the definition** (composition with C07,
+agent boc's `parseBoc`/`parse_sound`). For every byte string: if the model of `DeserializeBoc` returns cells, then every
+row `i` of the result denotes a finite tree `c` (fuel 1026 suffices), the executable memoised hashing the driver runs
+(`Table.infos`) returns for that row exactly `Cell.info H c`, which is a value — whose `Hash(l)`/`Depth(l)` never
+panic — or the depth error, never a panic and no other error; and whenever `c` satisfies the exotic-cell rules the
+value is the one of the TON definition (`Spec.hashAt`/`depthAt`/`level`), the depth error occurring exactly for
+`Spec.tooDeep c`. -/
+theorem parsed_cells_hash_total (bs : Boc.Bytes) (hlen : bs.length < Boc.two63) (t : Table) (roots : List Nat)
+    (hp : Boc.parseBoc bs = .ok (t, roots)) (H : List UInt8 → List UInt8) :
+    ∀ i, i < t.size → ∃ c, Table.unfold t (maxDepth + 2) i = some c ∧
+      (Table.infos H t)[i]? = some (Cell.info H c) ∧
+      ((∃ info, Cell.info H c = .ok info ∧
+          ∀ l, (info.hashAt l).isPanic = false ∧ (info.depthAt l).isPanic = false) ∨
+        Cell.info H c = .err "depth is too big") ∧
+      (Spec.WFExotic c →
+        (Spec.tooDeep c = true → Cell.info H c = .err "depth is too big") ∧
+        (Spec.tooDeep c = false → ∃ info, Cell.info H c = .ok info ∧
+          (∀ l, l ≤ 4 → info.hashAt l = .ok (Spec.hashAt H c l) ∧ info.depthAt l = .ok (Spec.depthAt c l)) ∧
+          LevelMask.level info.mask = Spec.cellLevel c)) := by
+  intro i hi
+  obtain ⟨hrows, _, ds, _, hrank⟩ := C07.parse_sound bs hlen t roots hp
+  have hsome := Boc.unfold_isSome_depth t hrows ds hrank (maxDepth + 2) i hi (by have := (hrank i hi).1; omega)
+  obtain ⟨c, hc⟩ := Option.isSome_iff_exists.mp hsome
+  have htree := BocHash.unfold_treeOK t hrows _ i c hc
+  obtain ⟨hnp, hok⟩ := BocHash.Cell.info_ok H c htree
+  refine ⟨c, hc, infos_refines H t _ i c hc, ?_, ?_⟩
+  · cases hinfo : Cell.info H c with
+    | panic p => exact absurd hinfo (hnp p)
+    | err e => right; rw [info_err H c e hinfo]; rfl
+    | ok info =>
+      left
+      refine ⟨info, rfl, fun l => ?_⟩
+      have io := hok info hinfo
+      constructor
+      · cases h : info.hashAt l with
+        | panic p => exact absurd h (BocHash.hashAt_no_panic info io l p)
+        | ok _ => rfl
+        | err _ => rfl
+      · cases h : info.depthAt l with
+        | panic p => exact absurd h (BocHash.depthAt_no_panic info io l p)
+        | ok _ => rfl
+        | err _ => rfl
+  · intro hwf
+    exact ⟨fun hd => (good_cell H c (wfExotic_wfSizes c hwf)).2 hd, fun hd => impl_eq_spec H c hwf hd⟩
+
 /-! ### non-vacuity: a tree over all five cell types with non-zero masks satisfies the hypotheses (test on a literal) -/
 
 def zeros (n : Nat) : List Bool := List.replicate n false
@@ -250,5 +320,37 @@ def exAll : Cell := .mk tyOrdinary 2 [true] [exProof, exUpd]
 
 example : Spec.WFExotic exAll ∧ Spec.tooDeep exAll = false := by decide +kernel
 example : Spec.cellLevel exAll = 2 ∧ Spec.cellLevel exOrd = 3 := by decide +kernel
+
+/-- tie (X4, regenerated from boc/cell.go): the descriptor byte `d1` REGENERATED on every run
+(`byte(cell.RefsSize() + specBit + 32*int(mask))`, 64-bit `int`, 32-bit `levelMask`; `TongoGen/CellDesc.lean`) is the
+`Tongo.d1` hashed by the model, for every reference count, exotic flag and mask in range. -/
+theorem gen_d1 (nrefs mask : Nat) (exotic : Bool) (hn : nrefs < 2^62) (hm : mask < 2^32) :
+    Gen.CellDesc.d1 (BitVec.ofNat 32 mask) (BitVec.ofNat 64 nrefs) exotic = (Tongo.d1 nrefs exotic mask).toBitVec :=
+  GenTies.gen_d1 nrefs mask exotic hn hm
+
+/-- tie (X4, regenerated from boc/cell.go): the descriptor byte `d2` REGENERATED on every run
+(`byte((cell.BitSize()+7)/8 + cell.BitSize()/8)`, Go's signed division) is the `Tongo.d2` hashed by the model, for every
+bit length below 2⁶². -/
+theorem gen_d2 (bitLen : Nat) (h : bitLen < 2^62) :
+    Gen.CellDesc.d2 (BitVec.ofNat 64 bitLen) = (Tongo.d2 bitLen).toBitVec :=
+  GenTies.gen_d2 bitLen h
+/-! Merkle updates with pruned branches on both sides (the `state_update` of a real block): `WFExotic` admits them
+(two refs, `04 hash hash depth depth`, mask = (mask₁ ∨ mask₂) >> 1), so `impl_eq_spec` applies. -/
+
+def exOld : Cell := .mk tyOrdinary 1 [true, true] [exPruned, .mk tyOrdinary 0 [false] []]
+def exNew : Cell := .mk tyOrdinary 1 [true, false] [.mk tyOrdinary 0 [true] [], exPruned]
+/-- old and new state, each with a pruned branch; the update itself has level 0 -/
+def exStateUpdate : Cell := .mk tyMerkleUpdate 0 (Bits.natToBits 8 4 ++ zeros 544) [exOld, exNew]
+def exBlock : Cell := .mk tyOrdinary 0 [true, false, true, true] [exStateUpdate, exLib]
+
+example : Spec.WFExotic exBlock ∧ Spec.tooDeep exBlock = false := by decide +kernel
+
+/-- `impl_eq_spec` instantiated on it (any hash function): the model of `Cell.Hash()` returns the definition's hash -/
+example (H : List UInt8 → List UInt8) : Cell.reprHash H exBlock = .ok (Spec.reprHash H exBlock) :=
+  reprHash_eq_spec H exBlock (by decide +kernel) (by decide +kernel)
+
+/-- under the update the children are taken one level up: at level 1 a mask-1 pruned branch answers with its own
+hash, so the update's hash does not depend on the hashes the pruned branches store (here: all zero) -/
+example : Spec.childLevel tyMerkleUpdate 0 = 1 ∧ Spec.level exOld.mask = 1 := by decide
 
 end Tongo.C02
